@@ -2,7 +2,7 @@
 
 import ast
 
-from ..absint import NONE, NOTNONE, TOP, DefaultDomain, Interp, Result, State, exc, val
+from ..absint import FALSE, NONE, NOTNONE, TOP, TRUE, DefaultDomain, Interp, Result, State, exc, val
 from ..astutil import FUNC_TYPES, attr_chain, dotted, norm, walk_shallow
 from ..cfg import live_nodes, node_calls
 from ..loader import AnalysisError
@@ -129,162 +129,359 @@ def run(ctx):
               examined=len(res), construct=f"{CONTENT}:_iter_chunks::obligations")
     seeks = {r.state.get("ev.seeks", 0) for r in normal}
     ctx.check("R-CHUNK-OBLIGATIONS", "at most one seek per iteration of the source", ic, seeks <= {0, 1}, f"seek counts {sorted(seeks)}", construct=f"{CONTENT}:_iter_chunks::seek-once")
+    check_iter_chunks_scenarios(ctx)
+    check_text_decoding(ctx)
+    check_sources(ctx)
+    check_equality(ctx)
+    ctx.assume("stream.read(n) returns at most n bytes and a falsy value only at end of file")
+    ctx.assume("codecs incremental decoders concatenate to the whole-string decode (stdlib contract)")
+
+
+# ---------------------------------------------------------------------------------------------- scenario runs
+B1, B2, EMPTY_B = ("const", b"first-chunk"), ("const", b"second"), ("const", b"")
+SIZE, OFFSET, WHENCE = ("sym", "chunk-size"), ("sym", "seek-offset"), ("sym", "seek-whence")
+UTF8 = ("sym", "UTF8_TEXT")
+
+
+def _stream_oracle(chunks, name="stream"):
+    """stream.read() hands out the given chunks in turn, then b'' for ever."""
+    def oracle(n, pos, kw, st):
+        if n == f"{name}.read":
+            k = sum(1 for e in st.get("ev.calls", ()) if e[0] == f"{name}.read")
+            return [("val", chunks[k] if k < len(chunks) else EMPTY_B)]
+        if n.startswith(name + "."):
+            return [("val", NONE)]
+        return None
+    return oracle
+
+
+def _gen_values(r, depth=0):
+    return list(r.state.get(f"gen.{depth}", ()))
+
+
+def check_iter_chunks_scenarios(ctx):
+    from .. import effects
+    ic = module_function(ctx, CONTENT, "_iter_chunks")
     params = [a.arg for a in ic.args.args]
-    reads = [c for c in walk_shallow(ic, include_self=False) if isinstance(c, ast.Call) and dotted(c.func) == f"{params[0]}.read"]
-    ok = bool(reads) and all(len(c.args) == 1 and dotted(c.args[0]) == params[1] for c in reads)
-    ctx.check("R-CHUNK-OBLIGATIONS", "every read asks for chunk_size bytes", ic, ok, f"read calls: {[norm(c) for c in reads]}", construct=f"{CONTENT}:_iter_chunks::read-size")
-    sk = [c for c in walk_shallow(ic, include_self=False) if isinstance(c, ast.Call) and dotted(c.func) == f"{params[0]}.seek"]
-    ok = len(sk) == 1 and [dotted(a) for a in sk[0].args] == [params[2], params[3]]
-    if ok:
-        p = sk[0]._parent._parent
-        ok = isinstance(p, ast.If) and norm(p.test) == f"{params[2]} is not None" and not p.orelse
-    ctx.check("R-CHUNK-OBLIGATIONS", "seek(seek_offset, seek_whence) iff seek_offset is not None", ic, ok, "the seek is not performed exactly when an offset was given, with both arguments",
-              construct=f"{CONTENT}:_iter_chunks::seek-guard")
+    STREAM = ("wobj", "stream")
+    n = 0
+    problems = set()
+    for chunks in ((), (B1, B2)):
+        for offset, label in ((NONE, "no offset"), (("const", 0), "offset 0"), (OFFSET, "an offset")):
+            dom = effects.EffectDomain(ctx.classes, oracle=_stream_oracle(chunks), log_cap=12)
+            dom.oracle_state = True
+            res = effects.run(ctx, dom, ic, None, {params[0]: STREAM, params[1]: SIZE, params[2]: offset, params[3]: WHENCE}, state=State(), depth=2)
+            n += len(res)
+            for r in res:
+                log = r.state.get("ev.calls", ())
+                if r.kind != "val":
+                    problems.add(f"[{len(chunks)} chunks, {label}] the generator raises {r.value!r}")
+                    continue
+                got = _gen_values(r)
+                if got != list(chunks):
+                    problems.add(f"[{len(chunks)} chunks, {label}] the chunks yielded are {got}; the stream hands out {list(chunks)} and then b''")
+                reads = [e for e in log if e[0] == "stream.read"]
+                if any(e[1] != (SIZE,) or e[2] for e in reads):
+                    problems.add("a read does not ask for exactly chunk_size bytes")
+                if len(reads) != len(chunks) + 1:
+                    problems.add(f"[{len(chunks)} chunks] {len(reads)} reads are made; expected one per chunk and the one that finds the end of the stream")
+                seeks = [e for e in log if e[0] == "stream.seek"]
+                want = [] if offset == NONE else [(offset, WHENCE)]
+                if [e[1] for e in seeks] != want:
+                    problems.add(f"[{label}] the seeks performed are {[e[1] for e in seeks]}; expected {want} (seek iff an offset is given -- 0 is an offset -- with the whence passed through)")
+                if seeks and [e[0] for e in log].index("stream.seek") > [e[0] for e in log].index("stream.read"):
+                    problems.add("the seek happens after data was read")
+    ctx.check("R-CHUNK-OBLIGATIONS", "_iter_chunks on a modelled stream: reads of chunk_size, every chunk yielded in order, seek first iff an offset is given", ic, not problems,
+              "; ".join(sorted(problems)[:4]), examined=n, construct=f"{CONTENT}:_iter_chunks::scenarios")
 
-    # ------------------------------------------------------------------ incremental decode
+
+CHUNKS = (B1, ("const", b"x"), EMPTY_B, B2)
+
+
+def check_text_decoding(ctx):
+    from .. import effects
+    cls = ctx.classes.get(CONTENT, "Content")
     it_f = own_method(ctx, CONTENT, "Content", "_iter_text")
-    ctx.analysed(it_f)
-    loops = [l for l in it_f.body if isinstance(l, ast.For)]
-    dec = [n for n in it_f.body if isinstance(n, ast.Assign) and isinstance(n.value, ast.Call) and isinstance(n.value.func, ast.Call) and dotted(n.value.func.func) == "codecs.getincrementaldecoder"]
-    ok = len(loops) == 1 and len(dec) == 1 and it_f.body.index(dec[0]) < it_f.body.index(loops[0])
-    if ok:
-        rebinds = [n for n in ast.walk(it_f) if isinstance(n, ast.Assign) and any(dotted(t) == dotted(dec[0].targets[0]) for t in n.targets)]
-        ok = len(rebinds) == 1
-    ctx.check("R-INCREMENTAL-DECODE", "one incremental decoder is created before the chunk loop", it_f, ok,
-              "the decoder is not a single codecs.getincrementaldecoder(encoding)() created before the loop", construct=f"{CONTENT}:Content._iter_text::one-decoder")
-    if ok:
-        dv = dotted(dec[0].targets[0])
-        lp = loops[0]
-        lv = dotted(lp.target)
-        ys = [y for y in walk_shallow(lp) if isinstance(y, ast.Yield)]
-        okl = (norm(lp.iter) == "self.iter_bytes()" and len(ys) == 1 and isinstance(ys[0].value, ast.Call) and dotted(ys[0].value.func) == f"{dv}.decode"
-               and [dotted(a) for a in ys[0].value.args] == [lv] and not ys[0].value.keywords
-               and not any(isinstance(x, (ast.If, ast.Break, ast.Continue, ast.Return, ast.Try)) for x in walk_shallow(lp)))
-        ctx.check("R-INCREMENTAL-DECODE", "each chunk of iter_bytes() is decoded by that decoder and yielded, unconditionally", lp, okl,
-                  "a chunk can be skipped, decoded independently, or decoded with final=True inside the loop", construct=f"{CONTENT}:Content._iter_text::per-chunk")
-        bad = [c for c in ast.walk(it_f) if isinstance(c, ast.Call) and isinstance(c.func, ast.Attribute) and c.func.attr == "decode" and dotted(c.func.value) != dv]
-        ctx.check("R-INCREMENTAL-DECODE", "no per-chunk bytes.decode()", it_f, not bad,
-                  f"{[norm(b) for b in bad]}: decoding chunks independently breaks multi-byte sequences cut by a chunk boundary", construct=f"{CONTENT}:Content._iter_text::no-bytes-decode")
-        after = it_f.body[it_f.body.index(lp) + 1:]
-        flush = [n for n in after if isinstance(n, ast.Assign) and isinstance(n.value, ast.Call) and dotted(n.value.func) == f"{dv}.decode"
-                 and ((len(n.value.args) == 2 and isinstance(n.value.args[1], ast.Constant) and n.value.args[1].value is True) or (isinstance(kw_value(n.value, "final"), ast.Constant) and kw_value(n.value, "final").value is True))]
-        okf = len(flush) == 1
-        if okf:
-            fv = dotted(flush[0].targets[0])
-            okf = any(isinstance(n, ast.If) and dotted(n.test) == fv and any(isinstance(y, ast.Yield) and dotted(y.value) == fv for s in n.body for y in walk_shallow(s)) for n in after)
-        ctx.check("R-INCREMENTAL-DECODE", "final=True flush after the loop, its non-empty result is yielded", it_f, okf,
-                  "the decoder is not flushed with final=True after the last chunk (a truncated trailing sequence would be dropped silently / never reported)",
-                  construct=f"{CONTENT}:Content._iter_text::final-flush")
-        enc = [n for n in it_f.body if isinstance(n, ast.Assign) and isinstance(n.value, ast.Call) and norm(n.value.func) == "self.content_type.parameters.get"]
-        oke = len(enc) == 1 and [str_const(a) for a in enc[0].value.args] == ["charset", "ISO-8859-1"] and dotted(dec[0].value.func.args[0]) == dotted(enc[0].targets[0])
-        ctx.check("R-INCREMENTAL-DECODE", "charset parameter selects the decoder, default ISO-8859-1", it_f, oke, "the decoder's encoding is not parameters.get('charset', 'ISO-8859-1')",
-                  construct=f"{CONTENT}:Content._iter_text::charset")
+    n = 0
+    problems = set()
+    for charset in (("const", "utf-8"), None):
+        for tail in (("const", ""), ("const", "<tail>")):
+            def oracle(name, pos, kw, tail=tail):
+                if name == "codecs.make_decoder":
+                    return [("val", ("wobj", "decoder"))]
+                if name == "decoder.decode":
+                    final = (len(pos) > 1 and pos[1] == TRUE) or dict(kw).get("final") == TRUE
+                    piece = pos[0][1].decode("latin-1") if pos and isinstance(pos[0], tuple) and pos[0][:1] == ("const",) and isinstance(pos[0][1], bytes) else "?"
+                    return [("val", tail if final else ("const", piece))]
+                return None
+            params = ("kwdict", (("charset", charset),) if charset else ())
+            dom = effects.EffectDomain(ctx.classes, attrs={"self": ("self",)}, oracle=oracle, track=lambda d: d == "codecs.getincrementaldecoder",
+                                       results={"codecs.getincrementaldecoder": [("bound", "codecs", "make_decoder")], "self._get_bytes": [("tuple",) + CHUNKS]}, log_cap=20)
+            res = effects.run(ctx, dom, it_f, cls, {}, state=State([("self.content_type.parameters", params)]), depth=4)
+            n += len(res)
+            for r in res:
+                log = r.state.get("ev.calls", ())
+                label = f"[charset {'declared' if charset else 'not declared'}, flush gives {tail[1]!r}]"
+                if r.kind != "val":
+                    problems.add(f"{label} _iter_text raises {r.value!r}")
+                    continue
+                made = [e for e in log if e[0] == "codecs.getincrementaldecoder"]
+                if len(made) != 1 or made[0][1] != (charset if charset else ("const", "ISO-8859-1"),):
+                    problems.add(f"{label} the decoder is made {len(made)} time(s) for {[e[1] for e in made]}; expected once, for the declared charset (ISO-8859-1 when none is declared)")
+                if sum(1 for e in log if e[0] == "codecs.make_decoder") != 1:
+                    problems.add(f"{label} not exactly one incremental decoder is instantiated: chunks cut inside a multi-byte sequence would be decoded independently")
+                dec = [e for e in log if e[0] == "decoder.decode"]
+                data = [e for e in dec if not ((len(e[1]) > 1 and e[1][1] == TRUE) or dict(e[2]).get("final") == TRUE)]
+                flush = [e for e in dec if e not in data]
+                if [e[1][:1] for e in data] != [(c_,) for c_ in CHUNKS]:
+                    problems.add(f"{label} the chunks decoded are {[e[1] for e in data]}; expected every chunk of iter_bytes() once, in order")
+                if len(flush) != 1 or dec.index(flush[0]) != len(dec) - 1 or flush[0][1][:1] != (EMPTY_B,):
+                    problems.add(f"{label} the decoder is not flushed exactly once, after the last chunk, with decode(b'', final=True): a truncated trailing sequence would be dropped silently")
+                pieces = _gen_values(r)
+                want = "".join(c_[1].decode("latin-1") for c_ in CHUNKS) + tail[1]
+                if not all(isinstance(x, tuple) and x[:1] == ("const",) and isinstance(x[1], str) for x in pieces) or "".join(x[1] for x in pieces) != want:
+                    problems.add(f"{label} the text yielded is {pieces}: its concatenation is not the decoded chunks in order" + (" followed by the flushed tail" if tail[1] else ""))
+    ctx.check("R-INCREMENTAL-DECODE", "_iter_text: one incremental decoder for the declared charset, every chunk decoded in order, one final flush whose non-empty result is yielded", it_f,
+              not problems, "; ".join(sorted(problems)[:4]), examined=n, construct=f"{CONTENT}:Content._iter_text::scenarios")
+    # as_text / iter_text / iter_bytes
     at = own_method(ctx, CONTENT, "Content", "as_text")
-    ok = any(isinstance(r, ast.Return) and norm(r.value).replace('"', "'") == "''.join(self.iter_text())" for r in walk_shallow(at, include_self=False))
-    ctx.check("R-INCREMENTAL-DECODE", "as_text joins iter_text()", at, ok, "as_text is not ''.join(self.iter_text())", construct=f"{CONTENT}:Content.as_text::join")
+    dom = effects.EffectDomain(ctx.classes, attrs={"self": ("self",)}, results={"self.iter_text": [("tuple", ("const", "ab"), ("const", ""), ("const", "c"))]})
+    res = effects.run(ctx, dom, at, cls, {}, state=State(), depth=2)
+    ok = bool(res) and all(r.kind == "val" and r.value == ("const", "abc") for r in res)
+    ctx.check("R-INCREMENTAL-DECODE", "as_text is the concatenation of iter_text()", at, ok, f"as_text of the pieces 'ab', '', 'c' gives {[r.value for r in res]!r}", examined=len(res), construct=f"{CONTENT}:Content.as_text::join")
     itx = own_method(ctx, CONTENT, "Content", "iter_text")
-    g = cfg_of(ctx, itx)
-    lv_ = live_nodes(g)
-    rets = [n for n in g.nodes if n.id in lv_ and n.kind == "return"]
-    ok = len(rets) == 1 and norm(rets[0].ast.value) == "self._iter_text()" and any(
-        n.kind == "test" and norm(n.ast.test).replace('"', "'") == "self.content_type.type != 'text'" for n in g.nodes if n.id in lv_)
-    ctx.check("R-INCREMENTAL-DECODE", "iter_text refuses non-text types and otherwise returns the decoding generator", itx, ok, "iter_text changed", construct=f"{CONTENT}:Content.iter_text::guard")
+    problems = set()
+    n = 0
+    for typ, want in ((("const", "text"), "decodes"), (("const", "application"), "refuses")):
+        dom = effects.EffectDomain(ctx.classes, attrs={"self": ("self",), "self.content_type": ("wobj", "ctype"), "ctype.type": typ}, results={"self._iter_text": [("sym", "the-text-generator")]})
+        res = effects.run(ctx, dom, itx, cls, {}, state=State(), depth=2)
+        n += len(res)
+        for r in res:
+            if want == "decodes" and (r.kind, r.value) != ("val", ("sym", "the-text-generator")):
+                problems.add(f"for a text type iter_text gives {r.kind} {r.value!r} instead of the decoding generator")
+            if want == "refuses" and not (r.kind == "exc" and r.value == ("exc", "ValueError")):
+                problems.add(f"for a non-text type iter_text gives {r.kind} {r.value!r} instead of raising ValueError")
+    ctx.check("R-INCREMENTAL-DECODE", "iter_text refuses non-text types and otherwise returns the decoding generator", itx, not problems, "; ".join(sorted(problems)), examined=n, construct=f"{CONTENT}:Content.iter_text::guard")
     ib = own_method(ctx, CONTENT, "Content", "iter_bytes")
-    ok = any(isinstance(r, ast.Return) and norm(r.value) == "self._get_bytes()" for r in walk_shallow(ib, include_self=False))
-    ctx.check("R-INCREMENTAL-DECODE", "iter_bytes hands out exactly what the source yields", ib, ok, "iter_bytes is not self._get_bytes()", construct=f"{CONTENT}:Content.iter_bytes::source")
+    dom = effects.EffectDomain(ctx.classes, attrs={"self": ("self",)}, results={"self._get_bytes": [("sym", "what-the-source-yields")]})
+    res = effects.run(ctx, dom, ib, cls, {}, state=State(), depth=2)
+    ok = bool(res) and all(r.kind == "val" and r.value == ("sym", "what-the-source-yields") for r in res)
+    ctx.check("R-INCREMENTAL-DECODE", "iter_bytes hands out exactly what the source yields", ib, ok, f"iter_bytes gives {[r.value for r in res]!r} instead of self._get_bytes()", examined=len(res), construct=f"{CONTENT}:Content.iter_bytes::source")
+    ci = own_method(ctx, CONTENT, "Content", "__init__")
+    dom = effects.EffectDomain(ctx.classes, attrs={"self": ("self",)})
+    res = effects.run(ctx, dom, ci, cls, {ci.args.args[1].arg: ("sym", "ctype"), ci.args.args[2].arg: ("sym", "source")}, state=State(), depth=2)
+    ok = bool(res) and all(r.kind == "val" and r.state.get("self.content_type") == ("sym", "ctype") and r.state.get("self._get_bytes") == ("sym", "source") for r in res)
+    ctx.check("R-EQ-READS-BOTH", "Content keeps the type and the byte source it was given", ci, ok, "Content.__init__ does not store the content type and the byte source", examined=len(res), construct=f"{CONTENT}:Content.__init__::fields")
 
-    # ------------------------------------------------------------------ eager vs lazy
+
+def _apply_later(ctx, dom, func, fn, st):
+    """Call the abstract callable ``fn`` (a byte source handed to Content) after the constructor returned."""
+    from ..absint import Frame, Interp
+    it = Interp(dom, max_depth=6)
+    outside = ast.parse("def _reading_the_content_later():\n    pass").body[0]   # a frame that is not the defining one: closures must bring their environment
+    fr = Frame(outside, 0, None, name="<reading the content>", is_method=False)
+    return dom.apply(it, fn, [], [], st, fr)
+
+
+def check_sources(ctx):
+    from .. import effects
+    from .deferredmodel import DeferredDomain   # (for its first-class callables: closures, partial, wrapped objects)
+    READER = ("wobj", "reader")
     cfr = module_function(ctx, CONTENT, "content_from_reader")
-    g = cfg_of(ctx, cfr)
-    lv_ = live_nodes(g)
-    ev = nodes_calling(g, lambda c: dotted(c.func) == "reader" and not c.args, lv_)
-    tests = [n.id for n in g.nodes if n.id in lv_ and n.kind == "test" and norm(n.ast.test) == "buffer_now"]
-    ok = len(ev) == 1 and len(tests) == 1 and any(b == ev[0] or ev[0] in g.reach([b]) for b, k in g.succ[tests[0]] if k == "true") and not any(
-        ev[0] in g.reach([b]) for b, k in g.succ[tests[0]] if k == "false")
-    ctx.check("R-EAGER-LAZY", "content_from_reader evaluates reader() now iff buffer_now", cfr, ok,
-              "the reader is evaluated eagerly without buffer_now, or not at all with it", construct=f"{CONTENT}:content_from_reader::buffer-now")
-    # what the buffered content hands out: the reader's own chunks, materialised -- a sequence built
-    # element-for-element from reader() (list / tuple / comprehension yielding the element itself).
-    # Joining or re-slicing them changes the chunking the callers promised (non-empty, <= chunk_size).
-    evs = [c for c in walk_shallow(cfr, include_self=False) if isinstance(c, ast.Call) and dotted(c.func) == "reader"]
-    how = "reader() is not evaluated exactly once"
-    ok = False
-    if len(evs) == 1:
-        par = evs[0]._parent
-        if isinstance(par, ast.Call) and dotted(par.func) in ("list", "tuple") and par.args == [evs[0]]:
-            ok = True
-        elif isinstance(par, ast.comprehension) and par.iter is evs[0] and isinstance(par._parent, ast.ListComp) and not par.ifs \
-                and dotted(par._parent.elt) == dotted(par.target) and len(par._parent.generators) == 1:
-            ok = True
-        elif isinstance(par, ast.Call) and ((isinstance(par.func, ast.Attribute) and par.func.attr == "join") or "join" in (dotted(par.func) or "")):
-            how = ("the chunks read are joined into one: a buffered content yields a single chunk larger than chunk_size, and an empty chunk for an empty source "
-                   "(content_from_file / content_from_stream promise non-empty chunks no larger than chunk_size)")
-        elif isinstance(par, (ast.Assign, ast.Return)) or (isinstance(par, ast.Call) and dotted(par.func) in ("iter", "map", "filter")):
-            how = "buffer_now keeps a one-shot iterator: the content could be read only once"
-        else:
-            how = f"the chunks handed out are `{norm(par)[:60]}`, not the reader's chunks one for one"
-    ctx.check("R-EAGER-LAZY", "buffered content hands out the reader's own chunks, materialised one for one", cfr, ok, how, construct=f"{CONTENT}:content_from_reader::materialise")
-    rets = [r for r in walk_shallow(cfr, include_self=False) if isinstance(r, ast.Return)]
-    ok = len(rets) == 1 and norm(rets[0].value) == "Content(content_type, reader)"
-    ctx.check("R-EAGER-LAZY", "content_from_reader returns Content(content_type, reader)", cfr, ok, "content_from_reader result changed", construct=f"{CONTENT}:content_from_reader::returns")
-    for name, lazy_call in (("content_from_file", "open"), ("content_from_stream", "_iter_chunks")):
+    p = [a.arg for a in cfr.args.args]
+    problems = set()
+    n = 0
+    for buffer_now in (TRUE, FALSE):
+        for ctype, want_type in ((("sym", "a-type"), ("sym", "a-type")), (NONE, UTF8)):
+            def oracle(name, pos, kw):
+                if name == "reader.__call__":
+                    return [("val", ("iter", ("tuple", B1, B2)))]   # readers typically return one-shot iterators (generators)
+                return None
+            dom = DeferredDomain(ctx.classes, attrs={"UTF8_TEXT": UTF8}, oracle=oracle, ctors={"Content"}, log_cap=12)
+            res = effects.run(ctx, dom, cfr, None, {p[0]: READER, p[1]: ctype, p[2]: buffer_now}, state=State(), depth=3)
+            n += len(res)
+            label = f"[buffer_now={'True' if buffer_now == TRUE else 'False'}]"
+            for r in res:
+                calls_ = [e for e in r.state.get("ev.calls", ()) if e[0] == "reader.__call__"]
+                if r.kind != "val" or not (isinstance(r.value, tuple) and r.value[:2] == ("new", "Content") and len(r.value[2]) == 2):
+                    problems.add(f"{label} content_from_reader gives {r.kind} {r.value!r} instead of a Content")
+                    continue
+                if r.value[2][0] != want_type:
+                    problems.add(f"{label} the content type is {r.value[2][0]!r}; expected {'the given type' if ctype != NONE else 'UTF8_TEXT when none is given'}")
+                src = r.value[2][1]
+                if buffer_now == FALSE:
+                    if calls_:
+                        problems.add(f"{label} the reader is evaluated when the Content is created (lazy reading was promised)")
+                    if src != READER:
+                        later = _apply_later(ctx, dom, cfr, src, r.state)
+                        if not later or any(x.kind != "val" or x.value not in (("tuple", B1, B2), ("iter", ("tuple", B1, B2))) or sum(1 for e in x.state.get("ev.calls", ()) if e[0] == "reader.__call__") != 1 for x in later):
+                            problems.add(f"{label} the byte source handed to Content does not read from the reader when the content is read")
+                else:
+                    if len(calls_) != 1:
+                        problems.add(f"{label} the reader is evaluated {len(calls_)} times when the Content is created; expected exactly once (buffering)")
+                    for _ in range(2):   # a buffered content can be read again and again
+                        later = _apply_later(ctx, dom, cfr, src, r.state)
+                        if not later:
+                            problems.add(f"{label} the buffered byte source cannot be called")
+                        for x in later:
+                            again = sum(1 for e in x.state.get("ev.calls", ()) if e[0] == "reader.__call__")
+                            if x.kind == "val" and isinstance(x.value, tuple) and x.value[:1] == ("iter",):
+                                problems.add(f"{label} buffer_now keeps the reader's one-shot iterator: the content could be read only once")
+                            elif x.kind != "val" or x.value != ("tuple", B1, B2):
+                                problems.add(f"{label} the buffered content hands out {x.value!r}; expected the reader's own chunks, one for one (joining or re-slicing them breaks the promised chunking)")
+                            if again != 1:
+                                problems.add(f"{label} reading the buffered content evaluates the reader again")
+    ctx.check("R-EAGER-LAZY", "content_from_reader: reader evaluated now (once, materialised chunk for chunk) iff buffer_now; type defaults to UTF8_TEXT", cfr, not problems,
+              "; ".join(sorted(problems)[:4]), examined=n, construct=f"{CONTENT}:content_from_reader::scenarios")
+    # content_from_file / content_from_stream: nothing is touched until the content is read (unless buffer_now)
+    for name in ("content_from_file", "content_from_stream"):
         f = module_function(ctx, CONTENT, name)
-        ctx.analysed(f)
-        nested = [n for n in f.body if isinstance(n, FUNC_TYPES)]
-        outer_calls = [c for s in f.body if not isinstance(s, FUNC_TYPES) for c in walk_shallow(s) if isinstance(c, ast.Call) and dotted(c.func) == lazy_call]
-        inner_calls = [c for n in nested for c in ast.walk(n) if isinstance(c, ast.Call) and dotted(c.func) == lazy_call]
-        ctx.check("R-EAGER-LAZY", f"{name}: {lazy_call}() happens inside the nested reader (lazy)", f, len(nested) == 1 and not outer_calls and len(inner_calls) == 1,
-                  f"{name} touches its source when the Content is created, not when it is read", construct=f"{CONTENT}:{name}::lazy")
-        chunks = [c for n in nested for c in ast.walk(n) if isinstance(c, ast.Call) and dotted(c.func) == "_iter_chunks"]
-        ok = len(chunks) == 1 and [dotted(a) for a in chunks[0].args][1:] == ["chunk_size", "seek_offset", "seek_whence"] and (
-            dotted(chunks[0].args[0]) == "stream")
-        ctx.check("R-EAGER-LAZY", f"{name}: chunk_size and seek arguments reach _iter_chunks unchanged", f, ok, f"{[norm(c) for c in chunks]}", construct=f"{CONTENT}:{name}::args")
-        rets = [r for r in f.body if isinstance(r, ast.Return)]
-        ok = len(rets) == 1 and norm(rets[0].value) == "content_from_reader(reader, content_type, buffer_now)"
-        ctx.check("R-EAGER-LAZY", f"{name}: reader, content type and buffer_now handed to content_from_reader", f, ok, "wrong hand-over to content_from_reader", construct=f"{CONTENT}:{name}::handover")
-    cff = module_function(ctx, CONTENT, "content_from_file")
-    opens = [c for c in ast.walk(cff) if isinstance(c, ast.Call) and dotted(c.func) == "open"]
-    ok = len(opens) == 1 and dotted(opens[0].args[0]) == "path" and len(opens[0].args) > 1 and str_const(opens[0].args[1]) == "rb" and isinstance(opens[0]._parent, ast.withitem)
-    ctx.check("R-EAGER-LAZY", "content_from_file opens the path in binary mode under `with`", cff, ok, "the file is not opened as open(path, 'rb') in a with block", construct=f"{CONTENT}:content_from_file::open")
+        first = f.args.args[0].arg
+        problems = set()
+        n = 0
+        for buffer_now in (FALSE, TRUE):
+            src_obj = ("sym", "the-path") if name == "content_from_file" else ("wobj", "stream")
+            oracle = _stream_oracle((B1, B2), name="file" if name == "content_from_file" else "stream")
+            dom = DeferredDomain(ctx.classes, attrs={"UTF8_TEXT": UTF8}, oracle=oracle, ctors={"Content"}, results={"open": [("wobj", "file")]}, track=lambda d: d == "open", log_cap=24)
+            dom.oracle_state = True
+            dom.enter_returns_self = True
+            argv = {first: src_obj, "content_type": NONE, "chunk_size": SIZE, "buffer_now": buffer_now, "seek_offset": OFFSET, "seek_whence": WHENCE}
+            res = effects.run(ctx, dom, f, None, argv, state=State(), depth=5)
+            n += len(res)
+            label = f"[buffer_now={'True' if buffer_now == TRUE else 'False'}]"
+            obj = "file" if name == "content_from_file" else "stream"
+            for r in res:
+                log = r.state.get("ev.calls", ())
+                if r.kind != "val" or not (isinstance(r.value, tuple) and r.value[:2] == ("new", "Content") and len(r.value[2]) == 2):
+                    problems.add(f"{label} {name} gives {r.kind} {r.value!r} instead of a Content")
+                    continue
+                if r.value[2][0] != UTF8:
+                    problems.add("the content type does not default to UTF8_TEXT")
+                touched = [e[0] for e in log if e[0] == "open" or e[0].startswith(obj + ".")]
+                if buffer_now == FALSE and touched:
+                    problems.add(f"{label} {name} touches its source when the Content is created ({touched[:3]}): lazy reading was promised")
+                if buffer_now == TRUE and not any(x.endswith(".read") for x in touched):
+                    problems.add(f"{label} nothing is read although buffer_now was requested")
+                base = len(log)
+                for x in _apply_later(ctx, dom, f, r.value[2][1], r.state):
+                    got = x.value if x.kind == "val" else None
+                    if isinstance(got, tuple) and got[:1] == ("tuple",):
+                        got = list(got[1:])
+                    else:
+                        got = list(x.state.get("gen.1", ())) or got
+                    if got != [B1, B2]:
+                        problems.add(f"{label} reading the content gives {got!r}; expected the stream's chunks {[B1, B2]}")
+                    new = x.state.get("ev.calls", ())[base:]
+                    if buffer_now == TRUE and any(e[0].endswith(".read") or e[0] == "open" for e in new):
+                        problems.add(f"{label} a buffered content touches its source again when read")
+                    full = x.state.get("ev.calls", ())
+                    reads = [e for e in full if e[0] == obj + ".read"]
+                    seeks = [e for e in full if e[0] == obj + ".seek"]
+                    if any(e[1] != (SIZE,) for e in reads) or [e[1] for e in seeks] != [(OFFSET, WHENCE)]:
+                        problems.add("chunk_size / seek_offset / seek_whence do not reach the stream unchanged")
+                    if name == "content_from_file":
+                        opens = [e for e in full if e[0] == "open"]
+                        if len(opens) != 1 or opens[0][1][:1] != (src_obj,) or ("const", "rb") not in list(opens[0][1][1:]) + [v for _, v in opens[0][2]]:
+                            problems.add(f"the file is opened as open{[e[1] for e in opens]!r}; expected once, open(path, 'rb')")
+                        names = [e[0] for e in full]
+                        if names.count("file.__enter__") != names.count("file.__exit__") or "file.__exit__" not in names:
+                            problems.add("the file is not closed after reading (not opened under `with`)")
+        ctx.check("R-EAGER-LAZY", f"{name}: source untouched until the content is read unless buffer_now; chunking and seek arguments passed through", f, not problems,
+                  "; ".join(sorted(problems)[:4]), examined=n, construct=f"{CONTENT}:{name}::scenarios")
+    # text_content / json_content round trips: the bytes are the argument encoded in the declared charset
     tcf = module_function(ctx, CONTENT, "text_content")
     ctm = ctx.repo.module(CTYPE)
     utf8 = None
-    for s in ctm.tree.body:
-        if isinstance(s, ast.Assign) and dotted(s.targets[0]) == "UTF8_TEXT" and isinstance(s.value, ast.Call) and len(s.value.args) == 3 and isinstance(s.value.args[2], ast.Dict):
-            utf8 = {str_const(k): str_const(v) for k, v in zip(s.value.args[2].keys, s.value.args[2].values)}.get("charset")
-    encs = [str_const(c.args[0]) for c in ast.walk(tcf) if isinstance(c, ast.Call) and isinstance(c.func, ast.Attribute) and c.func.attr == "encode" and c.args]
-    mk = [c for c in ast.walk(tcf) if isinstance(c, ast.Call) and dotted(c.func) == "Content"]
-    ok = len(mk) == 1 and dotted(mk[0].args[0]) == "UTF8_TEXT" and len(encs) == 1 and utf8 is not None and encs[0].lower().replace("-", "") == utf8.lower().replace("-", "")
-    ctx.check("R-EAGER-LAZY", "text_content encodes with the charset its content type declares", tcf, ok,
-              f"text_content encodes with {encs} but declares charset={utf8!r}", construct=f"{CONTENT}:text_content::charset-agrees")
+    for s_ in ctm.tree.body:
+        if isinstance(s_, ast.Assign) and dotted(s_.targets[0]) == "UTF8_TEXT" and isinstance(s_.value, ast.Call) and len(s_.value.args) == 3 and isinstance(s_.value.args[2], ast.Dict):
+            utf8 = {str_const(k): str_const(v) for k, v in zip(s_.value.args[2].keys, s_.value.args[2].values)}.get("charset")
+    TEXT = "café \U0001f600 \x00"
+    dom = DeferredDomain(ctx.classes, attrs={"UTF8_TEXT": UTF8}, ctors={"Content"})
+    res = effects.run(ctx, dom, tcf, None, {tcf.args.args[0].arg: ("const", TEXT)}, state=State(), depth=3)
+    problems = set()
+    for r in res:
+        if r.kind != "val" or not (isinstance(r.value, tuple) and r.value[:2] == ("new", "Content") and r.value[2][:1] == (UTF8,)):
+            problems.add(f"text_content gives {r.kind} {r.value!r}; expected a UTF8_TEXT Content")
+            continue
+        for x in _apply_later(ctx, dom, tcf, r.value[2][1], r.state):
+            chunks = x.value[1:] if x.kind == "val" and isinstance(x.value, tuple) and x.value[:1] == ("tuple",) else None
+            joined = b"".join(c[1] for c in chunks) if chunks is not None and all(isinstance(c, tuple) and c[:1] == ("const",) and isinstance(c[1], bytes) for c in chunks) else None
+            try:
+                back = joined.decode(utf8) if joined is not None and utf8 else None
+            except (UnicodeDecodeError, LookupError):
+                back = None
+            if back != TEXT:
+                problems.add(f"the bytes of text_content(t) do not decode to t in the declared charset {utf8!r} (got {joined!r})")
+    ctx.check("R-EAGER-LAZY", "text_content: the bytes are the text encoded in the charset the content type declares", tcf, bool(res) and not problems, "; ".join(sorted(problems)) or "no path", examined=len(res),
+              construct=f"{CONTENT}:text_content::charset-agrees")
     jc = module_function(ctx, CONTENT, "json_content")
-    ok = any(isinstance(c, ast.Call) and dotted(c.func) == "json.dumps" and dotted(c.args[0]) == jc.args.args[0].arg for c in ast.walk(jc)) and any(
-        isinstance(c, ast.Call) and dotted(c.func) == "Content" and dotted(c.args[0]) == "JSON" for c in ast.walk(jc))
-    ctx.check("R-EAGER-LAZY", "json_content serialises its argument as JSON content", jc, ok, "json_content changed", construct=f"{CONTENT}:json_content::dumps")
+    dom = DeferredDomain(ctx.classes, attrs={"JSON": ("sym", "JSON")}, ctors={"Content"}, results={"json.dumps": [("const", '{"k": "é"}')]}, track=lambda d: d == "json.dumps")
+    DATA = ("sym", "json-data")
+    res = effects.run(ctx, dom, jc, None, {jc.args.args[0].arg: DATA}, state=State(), depth=3)
+    problems = set()
+    for r in res:
+        dumps = [e for e in r.state.get("ev.calls", ()) if e[0] == "json.dumps"]
+        if r.kind != "val" or not (isinstance(r.value, tuple) and r.value[:2] == ("new", "Content") and r.value[2][:1] == (("sym", "JSON"),)) or len(dumps) != 1 or dumps[0][1][:1] != (DATA,):
+            problems.add("json_content does not build a JSON Content from json.dumps(data)")
+            continue
+        for x in _apply_later(ctx, dom, jc, r.value[2][1], r.state):
+            chunks = x.value[1:] if x.kind == "val" and isinstance(x.value, tuple) and x.value[:1] == ("tuple",) else ()
+            joined = b"".join(c[1] for c in chunks if isinstance(c, tuple) and c[:1] == ("const",) and isinstance(c[1], bytes))
+            if joined != '{"k": "é"}'.encode("utf-8"):
+                problems.add(f"the bytes of json_content are {joined!r}, not the UTF-8 encoding of the JSON text")
+    ctx.check("R-EAGER-LAZY", "json_content: the bytes are the JSON text of the data, UTF-8 encoded", jc, bool(res) and not problems, "; ".join(sorted(problems)) or "no path", examined=len(res),
+              construct=f"{CONTENT}:json_content::dumps")
 
-    # ------------------------------------------------------------------ equality
+
+def check_equality(ctx):
+    from .. import effects
+    cls = ctx.classes.get(CONTENT, "Content")
     eq = own_method(ctx, CONTENT, "Content", "__eq__")
-    txt = norm(eq)
     other = eq.args.args[1].arg
-    ok = ("self.content_type == %s.content_type" % other in txt and "_join_b(self.iter_bytes())" in txt and "_join_b(%s.iter_bytes())" % other in txt
-          and any(isinstance(r, ast.Return) and isinstance(r.value, ast.BoolOp) and isinstance(r.value.op, ast.And) for r in walk_shallow(eq, include_self=False)))
-    ctx.check("R-EQ-READS-BOTH", "Content.__eq__ compares content type AND joined bytes of both operands", eq, ok, "Content equality ignores the type or one side's bytes", construct=f"{CONTENT}:Content.__eq__::both")
-    ct = classes.get(CTYPE, "ContentType")
+    problems = set()
+    n = 0
+    T1, T2 = ("const", "text/plain"), ("const", "text/x-other")
+    cases = [
+        ("same type, same bytes in the same chunks", T1, T1, (B1, B2), (B1, B2), TRUE),
+        ("same type, same bytes cut differently", T1, T1, (("const", b"ab"), ("const", b"c")), (("const", b"a"), ("const", b""), ("const", b"bc")), TRUE),
+        ("same type, different bytes", T1, T1, (B1,), (B2,), FALSE),
+        ("different type, same bytes", T1, T2, (B1,), (B1,), FALSE),
+        ("same type, other has more bytes", T1, T1, (B1,), (B1, B2), FALSE),
+    ]
+    for label, t_self, t_other, b_self, b_other, want in cases:
+        def oracle(name, pos, kw):
+            if name == "joiner.join" and pos and isinstance(pos[0], tuple) and pos[0][:1] == ("tuple",) and all(isinstance(c, tuple) and c[:1] == ("const",) for c in pos[0][1:]):
+                return [("val", ("const", b"".join(c[1] for c in pos[0][1:])))]
+            if name == "other.iter_bytes":
+                return [("val", ("tuple",) + tuple(b_other))]
+            return None
+        dom = effects.EffectDomain(ctx.classes, attrs={"self": ("self",), "self.content_type": t_self, "other.content_type": t_other, "_join_b": ("bound", "joiner", "join")},
+                                   results={"self._get_bytes": [("tuple",) + tuple(b_self)]}, oracle=oracle)
+        res = effects.run(ctx, dom, eq, cls, {other: ("wobj", "other")}, state=State(), depth=3)
+        n += len(res)
+        got = sorted({repr(r.value) if r.kind == "val" else "raises " + repr(r.value) for r in res})
+        if got != [repr(want)]:
+            problems.add(f"[{label}] == gives {got}; expected {'True' if want == TRUE else 'False'}")
+    ctx.check("R-EQ-READS-BOTH", "Content.__eq__: equal iff same type and same concatenated bytes, however they are chunked", eq, not problems, "; ".join(sorted(problems)), examined=n,
+              construct=f"{CONTENT}:Content.__eq__::both")
+    ct = ctx.classes.get(CTYPE, "ContentType")
     ceq = ct.own_method("__eq__")
     init = ct.own_method("__init__")
     fields = sorted(a for a in __import__("ttsa.symbols", fromlist=["x"]).instance_attrs_assigned(init))
     ok = fields == ["parameters", "subtype", "type"] and "self.__dict__ == %s.__dict__" % ceq.args.args[1].arg in norm(ceq)
     if not ok:
-        cmp_fields = {n.attr for n in ast.walk(ceq) if isinstance(n, ast.Attribute) and dotted(n.value) == "self"}
+        cmp_fields = {n_.attr for n_ in ast.walk(ceq) if isinstance(n_, ast.Attribute) and dotted(n_.value) == "self"}
         ok = {"type", "subtype", "parameters"} <= cmp_fields
     ctx.check("R-EQ-READS-BOTH", "ContentType.__eq__ compares type, subtype and parameters", ceq, ok, "ContentType equality ignores a field", construct=f"{CTYPE}:ContentType.__eq__::fields")
     rp = ct.own_method("__repr__")
-    txt = norm(rp)
-    ok = "self.parameters.items()" in txt and "self.type" in txt and "self.subtype" in txt and "sorted(" in txt and not any(isinstance(n, ast.Subscript) and "parameters" in norm(n.value) for n in ast.walk(rp))
-    ctx.check("R-EQ-READS-BOTH", "ContentType.__repr__ renders type/subtype and every parameter (sorted)", rp, ok, "a parameter can be left out of the rendered MIME string", construct=f"{CTYPE}:ContentType.__repr__::all-params")
-    ci = own_method(ctx, CONTENT, "Content", "__init__")
-    ok = any(isinstance(n, ast.Assign) and dotted(n.targets[0]) == "self.content_type" and dotted(n.value) == ci.args.args[1].arg for n in ast.walk(ci)) and any(
-        isinstance(n, ast.Assign) and dotted(n.targets[0]) == "self._get_bytes" and dotted(n.value) == ci.args.args[2].arg for n in ast.walk(ci))
-    ctx.check("R-EQ-READS-BOTH", "Content keeps the type and the byte source it was given", ci, ok, "Content.__init__ changed", construct=f"{CONTENT}:Content.__init__::fields")
-    ctx.assume("stream.read(n) returns at most n bytes and a falsy value only at end of file")
-    ctx.assume("codecs incremental decoders concatenate to the whole-string decode (stdlib contract)")
+    problems = set()
+    n = 0
+    for params, want in ((("kwdict", (("charset", ("const", "utf8")), ("b", ("const", "2")))), 'text/plain; b="2"; charset="utf8"'), (("kwdict", ()), "text/plain")):
+        dom = effects.EffectDomain(ctx.classes, attrs={"self": ("self",), "self.type": ("const", "text"), "self.subtype": ("const", "plain")})
+        res = effects.run(ctx, dom, rp, ct, {}, state=State([("self.parameters", params)]), depth=2)
+        n += len(res)
+        got = sorted({repr(r.value) for r in res})
+        if got != [repr(("const", want))]:
+            problems.add(f"with parameters {dict(params[1])!r} the MIME string is {got}; expected {want!r}")
+    ctx.check("R-EQ-READS-BOTH", "ContentType.__repr__ renders type/subtype and every parameter (sorted)", rp, not problems, "; ".join(sorted(problems)), examined=n,
+              construct=f"{CTYPE}:ContentType.__repr__::all-params")
